@@ -84,10 +84,14 @@ Print Assumptions C08_two_ended_links_deleted.
    their dedicated ports, the removed sub-interface, the disconnected interface (`disc_ifs`) - is deleted.
    (Refuted before fix edd75a8 for sub-interfaces; holds of the repaired code, all graphs.)  Since fix 18b6247
    `disc_ifs` also covers Node/Topology.remove_network_service: the ports of the removed service and the sub-interfaces of
-   its dedicated ports.  NOT claimed for prune: it never disconnects (known finding). *)
+   its dedicated ports.  NOT claimed for prune: it never disconnects (known finding).
+   `self_peer_free g o ii` (needed since fix 5286851 made the disconnect loop skip interfaces that are already gone):
+   the interfaces of the element are not connected to each other - ii is not across a link from, nor next to a
+   ServicePort across a link from, another interface the operation disconnects. *)
 Theorem C08_artefact_ports_deleted : forall ex o cs g r g' tr,
   run (exec ex o cs) g = (inl r, (g', tr)) ->
-  forall ii l sp, disc_ifs g o ii -> link2 g l ii sp -> type_of g sp = T_ServicePort -> In sp tr.
+  forall ii l sp, disc_ifs g o ii -> self_peer_free g o ii ->
+                  link2 g l ii sp -> type_of g sp = T_ServicePort -> In sp tr.
 Proof. exact artefact_ports_deleted. Qed.
 Print Assumptions C08_artefact_ports_deleted.
 
@@ -110,6 +114,23 @@ Theorem C08_disconnect_only_service_port : forall ex s i cs g r g' tr,
   exists p, In p (peer_cps g i) /\ type_of g p = T_ServicePort /\ U_cp g p true x.
 Proof. exact disconnect_only_service_port. Qed.
 Print Assumptions C08_disconnect_only_service_port.
+
+(* Topology.remove_link on a link that carries a ServicePort (made by connect_interface / peer): raises, nothing
+   changes (fix 65db950).  Every graph. *)
+Theorem C08_remove_link_refuses_peering_link : forall ex nm cs g r g' tr,
+  run (exec ex (ORemoveLink nm) cs) g = (r, (g', tr)) ->
+  (forall l, In l (by_name g CLink nm) -> link_has_service_port g l = true) ->
+  (exists e, r = inr e) /\ tr = [] /\ g' = g.
+Proof. exact remove_link_refuses_peering_link. Qed.
+Print Assumptions C08_remove_link_refuses_peering_link.
+
+(* removal operations act on the MODEL regardless of the handle's cached interface list: whatever lists the handles
+   carry (current, stale, empty), the resulting graph, the deleted ids and the outcome (normal / which exception)
+   are the same.  Every operation, every graph. *)
+Theorem C08_cache_independent : forall ex o cs cs' g,
+  same_eff (run (exec ex o cs) g) (run (exec ex o cs') g).
+Proof. exact cache_independent. Qed.
+Print Assumptions C08_cache_independent.
 
 (* ================= handles: "report the same interfaces as a freshly looked-up handle" ================ *)
 
@@ -191,8 +212,13 @@ Example C08_nonvacuous_artefact :
   ok_of (run (exec true (ORemoveNode 1) []) G1) = true /\
   trace_of (run (exec true (ORemoveNode 1) []) G1) = [1; 2; 3; 4; 5; 6; 8; 9; 16; 17]%N /\
   sortN (disc_list G1 (node_interface_list G1 1)) = [4; 5; 6]%N /\ topo_nodes G1 1 = [1%N] /\
-  type_of G1 16 = T_ServicePort /\ link2 G1 17 6 16.
-Proof. repeat (split; [apply ex_remove_node_n1|]). exact link2_G1_17. Qed.
+  type_of G1 16 = T_ServicePort /\ link2 G1 17 6 16 /\ self_peer_free G1 (ORemoveNode 1) 6.
+Proof. repeat (split; [apply ex_remove_node_n1|]). split; [exact link2_G1_17 | exact G1_self_peer_free]. Qed.
+
+Example C08_nonvacuous_remove_peering_link :
+  by_name G2 CLink 5 = [5%N] /\ link_has_service_port G2 5 = true /\
+  fst (run (exec true (ORemoveLink 5) []) G2) = inr ETopology.
+Proof. repeat (split; [apply ex_remove_peering_link|]). apply ex_remove_peering_link. Qed.
 
 Example C08_nonvacuous_not_peered :
   (forall x m y, In x (cn G3 1) -> In m (cn G3 x) -> In y (cn G3 m) -> In 2%N (cn G3 y) ->
